@@ -35,6 +35,7 @@ func alphabet(keys []string, thorough bool) []kvh.Op {
 		ops = append(ops, kvh.Op{Kind: "cas", Key: k, Val: 3, Exp: 0, Ver: kvh.VCurrent}, kvh.Op{Kind: "cas", Key: k, Val: 3, Exp: 1, Ver: kvh.VCurrent})
 		ops = append(ops, kvh.Op{Kind: "cas", Key: k, Val: 3, Exp: 0, Ver: kvh.VStale}, kvh.Op{Kind: "cas", Key: k, Val: 3, Exp: 0, Ver: kvh.VNever})
 		ops = append(ops, kvh.Op{Kind: "get", Key: k}, kvh.Op{Kind: "delete", Key: k})
+		ops = append(ops, kvh.Op{Kind: "put", Key: k, Val: 2, Exp: 3}, kvh.Op{Kind: "cas", Key: k, Val: 3, Exp: 3, Ver: kvh.VCurrent})
 		ops = append(ops, kvh.Op{Kind: "wait", Key: k, Ver: kvh.VCurrent})
 		if thorough {
 			ops = append(ops, kvh.Op{Kind: "wait", Key: k, Ver: kvh.VNever}, kvh.Op{Kind: "cas", Key: k, Val: 3, Exp: 2, Ver: kvh.VEmpty})
@@ -72,7 +73,7 @@ func runPath(be kvh.Backend, rd *kvh.RedisBackend, path []kvh.Op, keys []string,
 		m := kvh.NewModel()
 		m.WriterInKey = rd == nil || os.Getenv("VERIF_TIER_THOROUGH") != "" // in-memory: always; Redis: thorough tier (each transition is a round trip)
 		d := kvh.NewDriver(be.Name(), st, base)
-		d.ExpDur = []time.Duration{0, short, long}
+		d.ExpDur = []time.Duration{0, short, long, 500 * time.Microsecond} // 3: a life-time below one millisecond (still in the future)
 		clocks := 0
 		now := func() time.Time { return base.Add(vsched.NowPeek()) }
 		// keys whose record has expired and that no operation has touched since ("first touch" still pending):
@@ -293,7 +294,7 @@ func main() {
 		run.Finish(ev.Coverage{
 			"states": states, "transitions": trans, "traces_validated_against_impl": trans, "samples": samples.List,
 			"exhaustive": fix, "fixpoint": fix, "per_backend": per,
-			"rule": "(conc) 2-3 concurrent waiters on one expiring record with cancellers on every proper subset, every schedule within P<=2: each waiter that was not cancelled ends with ErrNotExist after the expiration; (per backend) BFS over all histories over keys a,b of writes (Create/Put/PutMany/CasByVersion) with expiry none/+10s/+1000s, clock steps +20s/+2000s (at most 3 per history) and every operation kind as first and later touch of an expired key (Get, GetMany, CasByVersion(current), Delete, Create, ListKeys, WaitForVersionChange observed for 2s of virtual time), to a fixpoint of (model state with remaining lifetimes, clock steps used); every transition replays the history on a fresh backend inside one execution of the controlled scheduler (virtual time); oracle: KV model that deletes a record at its expiration instant, full observable state + ListKeys compared after every operation",
+			"rule": "(conc) 2-3 concurrent waiters on one expiring record with cancellers on every proper subset, every schedule within P<=2: each waiter that was not cancelled ends with ErrNotExist after the expiration; (per backend) BFS over all histories over keys a,b of writes (Create/Put/PutMany/CasByVersion) with expiry none/+1s/+1000s/+500us, clock steps +20s/+2000s (at most 3 per history) and every operation kind as first and later touch of an expired key (Get, GetMany, CasByVersion(current), Delete, Create, ListKeys, WaitForVersionChange observed for 2s of virtual time), to a fixpoint of (model state with remaining lifetimes, clock steps used); every transition replays the history on a fresh backend inside one execution of the controlled scheduler (virtual time); oracle: KV model that deletes a record at its expiration instant, full observable state + ListKeys compared after every operation",
 		})
 		return
 	}
